@@ -62,7 +62,8 @@ def run_history(hist, threads=None, env_over=None, cache_dir=None, timeout=1500)
 
 def alphabet(tier):
     a = ["fit:daily:A", "fit:hourly:A", "fit:billing:A", "fit:daily:B", "fit:hourly:B", "use:hourly:A", "fit_unseeded:hourly",
-         "settings:custom", "abuse:settings_lists", "np:seed0", "np:rand", "import:hourly_first"]
+         "settings:custom", "abuse:settings_lists", "np:seed0", "np:rand", "import:hourly_first",
+         "fit:hourly_late:A", "fit:hourly_seed0:A", "fit:daily_spiky:A", "fit_devalpha:daily"]
     if tier == "thorough":
         a += ["fit:daily_legacy:A", "fit:hourly_solar:A", "use:daily:A", "np:seed1", "fit:caltrack:A"]
     return a
@@ -74,15 +75,17 @@ def run(tier, seed):
     workers = poolmod.n_workers()
     alpha = alphabet(tier)
     checked = [a for a in alpha if a.startswith(CHECKED_PREFIX)]
-    ref_ops = sorted(set("fit:" + a.split(":", 1)[1] if a.startswith("use:") else a for a in checked))
+    ref_ops = sorted(set(("fit:" + a.split(":", 1)[1] if a.startswith("use:") else a).replace("fit:hourly_late:", "fit:hourly:") for a in checked))
     stats = {"processes": 0, "fits_compared": 0}
 
     def ref_of(op):
-        return "fit:" + op.split(":", 1)[1] if op.startswith("use:") else op
+        op = "fit:" + op.split(":", 1)[1] if op.startswith("use:") else op
+        return op.replace("fit:hourly_late:", "fit:hourly:")  # built early, fitted late: same data, settings and seed
 
     # ---- references: each fit alone in a fresh process, twice
     with ThreadPoolExecutor(max_workers=workers) as tp:
-        futs = {(op, k): tp.submit(run_history, [op]) for op in ref_ops for k in range(2)}
+        twice = {"fit:daily:A", "fit:hourly:A", "fit:billing:A"} if tier == "quick" else set(ref_ops)
+        futs = {(op, k): tp.submit(run_history, [op]) for op in ref_ops for k in range(2 if op in twice else 1)}
         refs = {}
         for (op, k), f in futs.items():
             res = f.result()
@@ -184,6 +187,15 @@ def run(tier, seed):
         try:
             for phase in ("cold", "warm"):
                 ops = [["fit:daily:A"], ["fit:hourly:A"], ["fit:daily:B", "fit:daily:A"], ["fit:billing:A", "fit:daily:A"]]
+                if phase == "cold":
+                    # first, ALONE on the empty cache: a developer-mode fit compiles the kernels, then default fits follow in the same
+                    # process; afterwards every other process of the batch loads that cache
+                    res = run_history(["fit_devalpha:daily", "fit:daily_spiky:A", "fit:daily:A"], None, None, cache)
+                    stats["processes"] += 1
+                    n_pool += 1
+                    for op, r in zip(["fit_devalpha:daily", "fit:daily_spiky:A", "fit:daily:A"], res["ops"]):
+                        judge(op, r, "developer_fit_first_on_cold_cache", f"cold cache, history starting with a developer-mode fit")
+                    ops.append(["fit:daily_spiky:A"])
                 jobs = [ops[i % len(ops)] for i in range(n)]
                 with ThreadPoolExecutor(max_workers=n) as tp:
                     futs = [(h, tp.submit(run_history, h, None, None, cache)) for h in jobs]
